@@ -838,6 +838,7 @@ pub fn e2_jobs(prop: &str, tier: Tier) -> Vec<E2Job> {
             {
                 // an ordinary system panics: thread-local systems of that dispatch must not start
                 let mut scs = Vec::new();
+                let mut scs_async = Vec::new();
                 for p in tl(2).into_iter().chain(tl(3).into_iter().filter(|p| p.len() == 3).take(200)) {
                     let info = PlanInfo::of(&p);
                     let has_tl = info.nodes.iter().any(|n| n.kind == crate::spec::Kind::Tl && n.parent.is_none());
@@ -850,11 +851,21 @@ pub fn e2_jobs(prop: &str, tier: Tier) -> Vec<E2Job> {
                                 let mut s = Scenario::plain(p.clone(), Mode::Dispatch, 2);
                                 s.panics = vec![(n.id, at_fetch)];
                                 scs.push(s);
+                                // the same through the async front end: the wait that follows must not run them either
+                                if p.len() <= 2 {
+                                    let mut s = Scenario::plain(p.clone(), Mode::Async, 1);
+                                    s.panics = vec![(n.id, at_fetch)];
+                                    scs_async.push(s);
+                                }
                             }
                         }
                     }
                 }
                 jobs.push(E2Job { label: "thread-local plans with a panicking ordinary system".into(), scenarios: scs, bounds: b(1), delay: false });
+                // (the controlled runtime's channel does not wake the receiver when an unwinding task drops the sender:
+                // where the real wait() unwinds with "Sender dropped" the model blocks the caller - both mean that
+                // completion is never reported, and that no thread-local system starts)
+                jobs.push(E2Job { label: "thread-local plans with a panicking ordinary system, async dispatch + wait (blocked caller expected)".into(), scenarios: scs_async, bounds: b(1), delay: false });
                 // a thread-local system panics (caught): the next dispatch still runs every thread-local system, in order
                 let mut scs = Vec::new();
                 for p in tl(2).into_iter().chain(tl(3).into_iter().filter(|p| p.len() == 3).take(200)) {
@@ -969,7 +980,7 @@ pub fn run_e2(prop: &str, tier: Tier, budget: Duration, frag: &mut Frag) {
         let remaining = budget.saturating_sub(start.elapsed());
         let share = remaining / (njobs - k) as u32;
         let t0 = Instant::now();
-        let opts = ExploreOpts { bounds: job.bounds.clone(), all_points: false, deadline: t0 + share, max_execs: u64::MAX, keep_traces: 4, deadlock_prop: None, delay_mode: job.delay };
+        let opts = ExploreOpts { bounds: job.bounds.clone(), all_points: false, deadline: t0 + share, max_execs: u64::MAX, keep_traces: 4, deadlock_prop: if job.label.contains("(blocked caller expected)") { Some("EXPECTED-BLOCKED-CALLER") } else { None }, delay_mode: job.delay };
         let r = run_scenarios(&job.scenarios, mon, &opts);
         let wall = t0.elapsed().as_secs_f64();
         frag.parts.push(json!({
@@ -2062,4 +2073,140 @@ pub fn run_abort_probe(frag: &mut Frag) -> bool {
         size: 1,
     });
     true
+}
+
+// ---------------------------------------------------------------------------
+// C13: a thread-local system whose setup hook CREATES a resource (a window handle, say).  The plan alphabet's
+// thread-local systems create nothing, so this small enumeration is separate: {thread-local provider at top level,
+// inside a batch, both} x {0, 1, 2 ordinary counting systems in front / behind} x {resource pre-existing or not};
+// setup, setup again, remove the resource, setup again: every hook runs exactly once per Dispatcher::setup.
+// ---------------------------------------------------------------------------
+
+pub fn run_c13_probe(frag: &mut Frag) {
+    use shred::{BatchController, Dispatcher, DispatcherBuilder, RunNow, System, World};
+    use std::panic::{catch_unwind, AssertUnwindSafe};
+    use std::sync::atomic::{AtomicU32, Ordering};
+    use std::sync::Arc;
+    struct Fresh(#[allow(dead_code)] u32);
+    struct Counting(Arc<AtomicU32>);
+    impl<'a> System<'a> for Counting {
+        type SystemData = ();
+        fn run(&mut self, _: ()) {}
+        fn setup(&mut self, _w: &mut World) {
+            self.0.fetch_add(1, Ordering::SeqCst);
+        }
+    }
+    struct Provider(Arc<AtomicU32>);
+    impl<'a> RunNow<'a> for Provider {
+        fn run_now(&mut self, _w: &'a World) {}
+        fn setup(&mut self, w: &mut World) {
+            self.0.fetch_add(1, Ordering::SeqCst);
+            if !w.has_value::<Fresh>() {
+                w.insert(Fresh(1));
+            }
+        }
+    }
+    struct Ctrl;
+    impl<'a, 'b, 'c> BatchController<'a, 'b, 'c> for Ctrl {
+        type BatchSystemData = ();
+        fn run(&mut self, world: &'c World, d: &mut Dispatcher<'a, 'b>) {
+            d.dispatch(world);
+        }
+    }
+    let t0 = Instant::now();
+    let mut cases = 0u64;
+    for place in 0..3u8 {
+        for front in 0..=2usize {
+            for behind in 0..=2usize {
+                for pre in [false, true] {
+                    cases += 1;
+                    let counters: Vec<Arc<AtomicU32>> = (0..front + behind + 3).map(|_| Arc::new(AtomicU32::new(0))).collect();
+                    let r = catch_unwind(AssertUnwindSafe(|| -> Option<String> {
+                        let mut b = DispatcherBuilder::new();
+                        let mut k = 0;
+                        for i in 0..front {
+                            b.add(Counting(counters[k].clone()), &format!("f{}", i), &[]);
+                            k += 1;
+                        }
+                        if place != 1 {
+                            b.add_thread_local(Provider(counters[k].clone()));
+                        }
+                        k += 1;
+                        if place != 0 {
+                            let mut inner = DispatcherBuilder::new();
+                            inner.add(Counting(counters[k].clone()), "inner", &[]);
+                            inner.add_thread_local(Provider(counters[k + 1].clone()));
+                            b.add_batch::<Ctrl>(Ctrl, inner, "batch", &[]);
+                        }
+                        k += 2;
+                        for i in 0..behind {
+                            b.add(Counting(counters[k].clone()), &format!("b{}", i), &[]);
+                            k += 1;
+                        }
+                        let mut d = b.build();
+                        let mut w = World::empty();
+                        if pre {
+                            w.insert(Fresh(0));
+                        }
+                        let used = |i: usize| -> bool {
+                            // index front = top-level provider, front + 1 / front + 2 = the batch's inner pair
+                            if i == front {
+                                place != 1
+                            } else if i == front + 1 || i == front + 2 {
+                                place != 0
+                            } else {
+                                true
+                            }
+                        };
+                        let mut round = 0;
+                        let mut check = |what: &str, round: u32| -> Option<String> {
+                            for (i, c) in counters.iter().enumerate() {
+                                let want = if used(i) { round } else { 0 };
+                                let got = c.load(Ordering::SeqCst);
+                                if got != want {
+                                    return Some(format!("after {}: setup hook #{} has run {} times, expected {}", what, i, got, want));
+                                }
+                            }
+                            None
+                        };
+                        d.setup(&mut w);
+                        round += 1;
+                        if let Some(e) = check("the first Dispatcher::setup", round) {
+                            return Some(e);
+                        }
+                        d.setup(&mut w);
+                        round += 1;
+                        if let Some(e) = check("a second Dispatcher::setup", round) {
+                            return Some(e);
+                        }
+                        let _ = w.remove::<Fresh>();
+                        d.setup(&mut w);
+                        round += 1;
+                        if let Some(e) = check("removing the created resource and a third Dispatcher::setup", round) {
+                            return Some(e);
+                        }
+                        d.dispatch(&w);
+                        None
+                    }));
+                    let bad = match r {
+                        Ok(None) => None,
+                        Ok(Some(e)) => Some(e),
+                        Err(p) => Some(format!("panicked: {}", crate::sched::payload_str(&*p))),
+                    };
+                    if let Some(e) = bad {
+                        frag.col.add(crate::report::Finding {
+                            prop: "C13".into(),
+                            sig: "setup-count-with-providing-thread-local".into(),
+                            msg: format!("{} ordinary systems, a thread-local system whose setup creates a resource {}, {} ordinary systems behind; resource {}: {}", front, ["at top level", "inside a batch", "at top level and inside a batch"][place as usize], behind, if pre { "pre-existing" } else { "absent" }, e),
+                            replay: json!({"kind":"c13-provider","place":place,"front":front,"behind":behind,"pre":pre}),
+                            size: front + behind + 1,
+                        });
+                    }
+                }
+            }
+        }
+    }
+    frag.parts.push(json!({"engine":"E3 histmc","what":"thread-local systems whose setup hook creates a resource (top level / inside a batch / both) x 0..2 ordinary counting systems in front and behind x resource pre-existing or not: setup, setup, remove + setup - every hook exactly once per Dispatcher::setup","cases": cases, "wall_s": t0.elapsed().as_secs_f64()}));
+    frag.states += cases;
+    frag.transitions += cases * 3;
 }
